@@ -263,7 +263,7 @@ Section Wrap.
   (* _consolidate_text_lines *)
   Definition consolidate (L : nat) (st : wst) (is_last la : bool) (lines : list str) : list str :=
     let lines := if (null (hd [SP] lines) && is_last && la)%bool then lines ++ [[]] else lines in
-    let lines := if ((line_offset L st =? 0) && null (hd [SP] lines))%bool then tl lines else lines in
+    let lines := if ((w_off st =? 0) && null (hd [SP] lines))%bool then tl lines else lines in
     if (Nat.leb 2 (length lines) && null (last lines [SP]))%bool then
       match rev lines with
       | e :: l2 :: more => rev more ++ [rstrip l2; e]
@@ -291,7 +291,7 @@ Section Wrap.
         then lines ++ [[]] else lines in
       let lines := consolidate L st is_last la lines in
       let '(cs, st') := write_lines L st lines in (pre ++ cs, st') in
-    if line_offset L st =? 0 then
+    if w_off st =? 0 then
       finish [] st ((if lb then [[]] else []) ++ wrap_lines (lstrip content) width)
     else
       let filling :=
@@ -314,10 +314,10 @@ Section Wrap.
     let is_last := match next with None => true | Some _ => false end in
     let next_sib := match next, rp with Some _, i :: pp => Some (S i :: pp) | _, _ => None end in
     if ((available L st =? elen (rstrip content)) && la)%bool then
-      let content := if line_offset L st =? 0 then indent ind L ++ lstrip content else content in
+      let content := if w_off st =? 0 then indent ind L ++ lstrip content else content in
       emit_raw st (rstrip content ++ NL)
     else if available L st >? elen content then
-      let content := if line_offset L st =? 0 then indent ind L ++ lstrip content else content in
+      let content := if w_off st =? 0 then indent ind L ++ lstrip content else content in
       let cond := (is_last
                    || match next, foll with
                       | Some y, Some f => legit_before (Some (Text s)) y && req_is_none f (available L st - elen content)
